@@ -725,6 +725,13 @@ MUTANTS = [
             memset(result, 0, arraySize);
     } else
         errno = ENOMEM;""")]),
+    dict(name='c07-end-of-input-mark-never-lowered', prop='C07', clause='D6', edits=[('src/tbb/parallel_pipeline.cpp',
+        """        if( end_of_input_tls.get() != nullptr ) {
+            end_of_input_tls.set(nullptr);
+            return true;
+        }
+        return false;""",
+        """        return end_of_input_tls.get() != nullptr;""")]),
     dict(name='c01-seed3-run-and-wait-handle-epilogue-on-exception-only', prop='C01', clause='D9', edits=[('include/oneapi/tbb/task_group.h',
         """            execute_and_wait(*acs::release(h), context(), m_wait_vertex.get_context(), context());
         }).on_completion([&] {""",
@@ -1660,6 +1667,26 @@ BENIGN = [
     }
     memset(result, 0, arraySize);
     return result;""")]),
+    dict(name='c07-b-end-of-input-mark-lowered-by-the-caller', prop='C07', edits=[('src/tbb/parallel_pipeline.cpp',
+        """        if( end_of_input_tls.get() != nullptr ) {
+            end_of_input_tls.set(nullptr);
+            return true;
+        }
+        return false;
+    }""",
+        """        return end_of_input_tls.get() != nullptr;
+    }
+    void clear_my_tls_end_of_input() {
+        end_of_input_tls.set(nullptr);
+    }"""),
+        ('src/tbb/parallel_pipeline.cpp',
+        """            if( !my_object && (!my_filter->object_may_be_null() || my_filter->my_input_buffer->my_tls_end_of_input()) ){
+                my_pipeline.end_of_input.store(true, std::memory_order_relaxed);""",
+        """            if( !my_object && (!my_filter->object_may_be_null() || my_filter->my_input_buffer->my_tls_end_of_input()) ){
+                if( my_filter->object_may_be_null() ) {
+                    my_filter->my_input_buffer->clear_my_tls_end_of_input();
+                }
+                my_pipeline.end_of_input.store(true, std::memory_order_relaxed);""")]),
     dict(name='c01-b-group-wait-epilogue-in-a-named-lambda', prop='C01', edits=[('include/oneapi/tbb/task_group.h',
         """        try_call([&] {
             d1::wait(m_wait_vertex.get_context(), context());
